@@ -5,9 +5,12 @@ package bubble
 import (
 	"bytes"
 	"fmt"
+	"os"
 	"regexp"
 	"runtime"
+	"strconv"
 	"strings"
+	"sync/atomic"
 	"testing"
 	"testing/synctest"
 	"time"
@@ -15,6 +18,10 @@ import (
 
 // Result of one bubble execution.
 type Result struct {
+	// Spin is set when the bubble did not finish within the real-time budget: some goroutine
+	// never blocks (a busy loop), so the fake clock cannot advance and Wait never returns. The
+	// bubble is abandoned (its goroutines keep running in the background).
+	Spin bool
 	// Deadlock is non-empty when synctest reported that all goroutines of the bubble
 	// were blocked (including: root returned while goroutines remained).
 	Deadlock string
@@ -22,8 +29,43 @@ type Result struct {
 	Panic string
 }
 
-// Run executes f as the root goroutine of a fresh bubble.
-func Run(t *testing.T, f func()) (res Result) {
+// CaseBudget is the real-time budget of one bubble (0 = none). A normal case takes
+// milliseconds; the budget only ends cases in which a goroutine spins.
+func CaseBudget() time.Duration {
+	if v, err := strconv.Atoi(os.Getenv("VERIF_CASE_BUDGET_S")); err == nil {
+		return time.Duration(v) * time.Second
+	}
+	return 8 * time.Second
+}
+
+var abandoned atomic.Int32
+
+// Run executes f as the root goroutine of a fresh bubble, within the real-time budget.
+func Run(t *testing.T, f func()) Result {
+	return RunBudget(t, CaseBudget(), f)
+}
+
+// RunBudget is Run with an explicit budget.
+func RunBudget(t *testing.T, budget time.Duration, f func()) Result {
+	if budget <= 0 {
+		return run(t, f)
+	}
+	done := make(chan Result, 1)
+	go func() { done <- run(t, f) }()
+	select {
+	case r := <-done:
+		return r
+	case <-time.After(budget):
+		if abandoned.Add(1) > 6 {
+			// every abandoned bubble keeps a core busy: give up like the watchdog does
+			fmt.Fprintf(os.Stderr, "VERIF-HANG more than 6 cases did not finish within their real-time budget\n")
+			os.Exit(3)
+		}
+		return Result{Spin: true, Deadlock: fmt.Sprintf("the case did not finish within %s of real time: a goroutine never blocks (busy loop), the fake clock cannot advance", budget)}
+	}
+}
+
+func run(t *testing.T, f func()) (res Result) {
 	defer func() {
 		if r := recover(); r != nil {
 			res.Deadlock = fmt.Sprint(r)
